@@ -1561,6 +1561,20 @@ def s_selection(ctx):
 
 
 # ------------------------------------------------------------------------------------------- entry points
+def generate(ctx):
+    """translator tie: _truncate / _fold (returns, reflection step, modulo step, thresholds), the geometric and Laplace noise
+    formulas and Snapping's scaling are re-read from /repo's AST on every run, translated to Lean terms over ℝ and proved
+    equal to the model's (lean/DPL/Model/Range.lean)
+    (harness/anchor_specs_c12.py, harness/anchors.py)"""
+    from .. import anchors, anchor_specs_c12 as S
+    from ..shim import REPO
+    r = anchors.build(REPO, "C12", ["DPL.Proofs.RangeReal"], S.specs(), opens="", postlude=getattr(S, "POST", ""))
+    ctx.count("formula_anchors", r["obligations"])
+    if r["errors"]:
+        r["unavailable"] = r["errors"]      # anchors that could not be located / translated (not failed obligations)
+    return r
+
+
 def check(ctx):
     with warnings.catch_warnings():
         warnings.simplefilter("ignore")
